@@ -367,6 +367,76 @@ CLAIMED["C18"] = (
 # Session 3: deep-embedding source ties added to clusters whose tie had been the correspondence only.
 # property -> (sentence appended to the level text, technique)
 SOURCE_TIES = {
+    "C01": ("SOURCE TIE (session 3): C01_sound_source states soundness (inDomain and Conv of whatever is accepted) of the INTERPRETED C "
+            "validators: the source text of every validate_trait_* function and helper of ctraits.c is translated on every run "
+            "(harness/translate/cvalidators.py -> Generated/CValidators.lean, language Model/CSrc.lean) and proved equal to the model "
+            "(see C03). The Python validate methods stay tied by correspondence. Dynamic Enum / Range histories that change the governing "
+            "trait between assignment and read are generated; F101-F103 (reads of a dynamic Range) are known findings.",
+            "Lean 4 proof (soundness w.r.t. an independent domain predicate; invariant over assignment histories) over C validators proved "
+            "equal to the interpretation of the translated source, with correspondence"),
+    "C03": ("SOURCE TIE (session 3): the source text of all 17 validate_trait_* functions, validate_trait_complex (loop by induction, one "
+            "lemma per switch case) and their helpers is translated on every run (cvalidators / Model/CSrc.lean, total CPS interpreter) and "
+            "fastAlone / fastInCompound / fastComplex are proved equal to the interpretation for every descriptor and value "
+            "(C03_fast_is_source, C03_compound_case_is_source, C03_copies_agree_source, C03_source_agrees_python_partial; hypotheses "
+            "AdaptSome, F49 as entryOk, and TupleCheckSpec for Tuple descriptors, whose helper is interpreted and compared at run time by "
+            "the driver but not proved). The Python validate methods stay tied by correspondence.",
+            "Lean 4 proof (agreement of three transcriptions, by cases and structural induction on compound nesting) with the two C "
+            "transcriptions proved equal to the interpretation of the translated C source, translated tables and correspondence"),
+    "C08": ("SOURCE TIE (session 3): the source of _observe.py (add_or_remove_notifiers, _AddOrRemoveNotifier, the shared undo log), "
+            "apply_observers and of the notifier add_to / remove_from / equals and ObserverGraph.__eq__ / __hash__ is translated on every "
+            "run (harness/translate/obsl.py, notl.py -> Generated/ObsProg.lean, NotifierProg.lean; languages Model/ObsL.lean, NotL.lean) "
+            "and the registration the theorems speak about is proved to be its interpretation (C08_registration_is_source, "
+            "C08_add_spec_source, C08_dedup_is_source). Set and dict mutations, add_trait and List/Dict/Set defaults are now under the "
+            "refinement invariant (C08_hooks_eq_reach_partial_set / _dict / _add_trait, C08_default_materialise_container_partial). "
+            "F99 (del + re-materialised default hooked twice) is a further known finding.",
+            "Lean 4 proof (refinement invariant hooks = reach on the assignment / list / set / dict / add_trait / default fragments; full "
+            "statements refuted by witness) over a registration proved equal to the interpretation of the translated source, with "
+            "white-box correspondence"),
+    "C09": ("SOURCE TIE (session 3): C09_walk_is_source, C09_register_is_source, C09_apply_observers_is_source, C09_refcount_is_source, "
+            "C09_maintainer_list_is_source, C09_equals_is_source prove the model's walk / addRemove / applyObservers / reference counting / "
+            "equality equal to the interpretation of the translated _observe.py and notifier sources (obsl, notl); the failure-atomic, "
+            "reversible, counted and one-removal-too-many clauses are restated about the interpreter's result (C09_*_source). "
+            "Decorator-form observers on multiple-inheritance class shapes are generated (F110 known).",
+            "Lean 4 proof (add/remove inverse, counting, failure atomicity via one undo log) over a model proved equal to the "
+            "interpretation of the translated source, with failure-injection correspondence; GC clause tested"),
+    "C12": ("SOURCE TIE (session 3): the handler of _create_property_observe_state, cached_property and the C body of "
+            "trait_property_changed are translated on every run (harness/translate/propsrc.py -> Generated/PropertyProg.lean, language "
+            "Model/PropL.lean); C12_step_is_source proves readProp / tpc / handlerObserve (and the return code) equal to the "
+            "interpretation and C12_never_stale_source restates never-stale on the interpreted source. Every listener kind (static, "
+            "_anytrait_changed, by name, name-less) is modelled; F98 is a further known finding.",
+            "Lean 4 proof (cache invariant under the interface assumptions C08 provides) over step functions proved equal to the "
+            "interpretation of the translated source, with correspondence"),
+    "C13": ("SOURCE TIE (session 3): the C source of has_traits_getattro / setattro, get_trait, get_prefix_trait, setattr_python / "
+            "disallow / readonly / constant, getattr_event / disallow / constant and the Python source of __prefix_trait__, add_trait, "
+            "remove_trait are translated on every run (harness/translate/resolve_c.py, resolve_py.py -> Generated/ResolveC.lean, "
+            "ResolvePy.lean; language Model/ResL.lean) and the model's lookup, cache, policy and add/remove functions are proved equal to "
+            "the interpretation for NULL and empty dictionaries alike (C13_lookup_is_source, C13_step_is_source, C13_policy_is_source, "
+            "C13_prefix_trait_is_source, C13_get_prefix_trait_is_source, C13_get_trait_*_is_source, C13_add_remove_is_source). The tie "
+            "exposed F106 (repaired in /repo 80abfdf).",
+            "Lean 4 proof (lookup order, longest prefix, cache coherence, policy automata) over a model proved equal to the interpretation "
+            "of the translated source, with correspondence"),
+    "C14": ("SOURCE TIE (session 3): the whole functions __getstate__, __reduce_ex__, __setstate__, copy_traits, clone_traits are "
+            "translated on every run (harness/translate/pypersist.py -> Generated/PersistProg.lean, language Model/PyPersist.lean); "
+            "C14_getstate_is_source, C14_setstate_is_source, C14_copy_is_source, C14_clone_is_source prove the model equal to the "
+            "interpretation (objects without deferred traits), life-cycle call order included.",
+            "Lean 4 proof (round trip, re-binding, no sharing by structural induction; table coverage by decide over translated C tables) "
+            "over model functions proved equal to the interpretation of the translated source, with correspondence"),
+    "C15": ("SOURCE TIE (session 3): the COMPILER is the interpreted source: parsing.py's handlers, dispatch dict, parse / compile_str "
+            "and expression.py's combinators, constructors and _create_graphs are translated on every run (harness/translate/dslprog.py -> "
+            "Generated/DslProg.lean, language Model/DslPy.lean) and toExpr / create / compileChars are proved equal to the interpretation "
+            "for every tree, expression and text (C15_toExpr_is_source, C15_create_is_source, C15_compile_expr_is_source, "
+            "C15_compile_is_source); C15_parser_tables_are_grammar proves the rules and terminals embedded in _generated_parser.py (what "
+            "actually runs) equal to _dsl_grammar.lark. A long-expression stream (chains / nestings of 60-300 elements) is compared too.",
+            "Lean 4 proof (parser = grammar both directions; compile = denotation; spelling invariance) with the compiler proved equal to "
+            "the interpretation of the translated source, translated grammar and parser tables, and exhaustive short-string correspondence"),
+    "C18": ("SESSION 3: harness/translate/crefpaths.py extracts the reference events (INCREF / DECREF / XDECREF / new / borrowed / stolen) "
+            "along every control-flow path of 36 C functions of the attribute get/set path (348 paths, loops unrolled 0/1/2 times, fails "
+            "closed) and C18_paths_balanced proves by decide that every path is balanced; harness/translate/ctraverse.py extracts the "
+            "tp_traverse / tp_clear / dealloc facts (Props/C18GC.lean: each owned field visited and cleared exactly once, nothing else "
+            "visited; raw setters validate before they store). Runtime families: gc.get_referents multisets, frame-local classes with "
+            "cyclic garbage, rejected raw CTrait setter calls followed by use. The defects found (F100-*, F107-F109) were repaired in /repo.",
+            "Lean 4 proof (table-index safety, reference ledger, per-path reference balance and GC-slot exactness by decide over translated C "
+            "facts) + refcount correspondence; sanitizer, GC and crash-isolated runs as failing-input search"),
     "C17": ("SOURCE TIE (session 3): the source text of _adapt, _get_applicable_offers, the edge comparator, provides_protocol and "
             "mro_distance_to_protocol is translated on every run (harness/translate/pyadapt.py -> Generated/AdaptProg.lean, language "
             "Model/PyA.lean) and the model's search is proved equal to its interpretation for every registry, factory table, adaptee type "
